@@ -39,7 +39,7 @@ ASSUMPTIONS = [
     "renaming taken from hook H1 (ANMLWriter._verif_names_mapping, UP_VERIF=1)",
     "problem-level `start + d` and `global start + d` denote the same instant",
     "ANMLSyntaxError / UPUnsupportedProblemTypeError from the reader = documented limitation (counted), any other reader failure on writer output is reported",
-    "pyparsing is slow (~170 ms per round trip): the deviation level actually completed is in levels_completed",
+    "pyparsing is slow (0.4-1.5 s per round trip of these problems): quick = core alternatives at deviation level 1; the level actually completed is in levels_completed",
 ]
 
 NAMINGS = [
@@ -63,10 +63,11 @@ def _depth(tier):
 def _plan(tier):
     # (kind, level, core_only, slots)
     if tier == "quick":
-        return [("inst", 0, False, None), ("temp", 0, False, None), ("inst", 1, False, None), ("temp", 1, False, None),
-                ("temp", 2, True, None), ("inst", 2, True, Q2_SLOTS)]
-    return [("inst", 0, False, None), ("temp", 0, False, None), ("inst", 1, False, None), ("temp", 1, False, None),
-            ("temp", 2, False, None), ("inst", 2, True, None), ("inst", 2, False, None)]
+        # ~0.4-1.5 s per round trip (pyparsing): deviation level 1 is what fits the quick budget
+        return [("inst", 0, False, None), ("temp", 0, False, None), ("inst", 1, True, None), ("temp", 1, False, None)]
+    return [("inst", 0, False, None), ("temp", 0, False, None), ("inst", 1, True, None), ("temp", 1, False, None),
+            ("inst", 1, False, None),
+            ("temp", 2, True, None), ("inst", 2, True, Q2_SLOTS), ("temp", 2, False, None)]
 
 
 def bounds(tier):
@@ -92,7 +93,7 @@ def shards(tier, seed):
         if level == 0:
             for ni in range(1, len(NAMINGS)):
                 ids.append((level, (kind, (), ni)))
-    return su.chunk_cases(ids, seed, per_level_chunks={0: 8, 1: 48, 2: 160 if tier == "quick" else 640})
+    return su.chunk_cases(ids, seed, per_level_chunks={0: 16, 1: 96, 2: 640})
 
 
 def run_shard(shard, tier, seed):
